@@ -1,0 +1,6 @@
+//go:build !verif
+
+package pool
+
+// yield is a no-op unless built with -tags verif.
+func yield(string) {}
